@@ -306,7 +306,7 @@ func init() {
 		cv := &CoinsV{Sym: &nm}
 		ex.fresh++
 		bv := smt.Var("d!"+itoa(ex.fresh), smt.Str)
-		ex.assume(smt.Forall([]*smt.Term{bv}, smt.Eq(ex.amtOf(cv, bv), ex.bal(w, addr, bv))))
+		ex.assume(smt.Forall([]*smt.Term{bv}, smt.And(smt.Eq(ex.amtOf(cv, bv), ex.bal(w, addr, bv)), smt.Ge(ex.amtOf(cv, bv), smt.IntC(0)))))
 		return cv
 	}, "BankKeeper.GetAllBalances", "BankKeeper.SpendableCoins")
 	regInvoke(func(c *Call) Val {
@@ -321,6 +321,22 @@ func init() {
 
 	// ---- account keeper ----
 	regInvoke(func(c *Call) Val { return smt.App("modaddr", smt.Addr, t(c, 1)) }, "AccountKeeper.GetModuleAddress")
+	// GetModuleAccount(ctx, name): an opaque account value that remembers the module name; reading
+	// (or creating) the account record moves no balances and writes no elys table
+	regInvoke(func(c *Call) Val {
+		nt := t(c, 2)
+		nm, ok := nt.Name, nt.IsLit() && nt.Sort == smt.Str
+		if !ok {
+			return c.Ex.externalHavoc(c, "invoke AccountKeeper.GetModuleAccount (symbolic name)")
+		}
+		return &OpaqueV{T: c.Result, Tag: "modacc:" + nm}
+	}, "AccountKeeper.GetModuleAccount")
+	regInvoke(func(c *Call) Val {
+		if o, ok := c.Ex.force(c.Args[0]).(*OpaqueV); ok && strings.HasPrefix(o.Tag, "modacc:") {
+			return smt.App("modaddr", smt.Addr, smt.StrC(strings.TrimPrefix(o.Tag, "modacc:")))
+		}
+		return c.Ex.externalHavoc(c, "invoke ModuleAccountI.GetAddress")
+	}, "ModuleAccountI.GetAddress")
 }
 
 type bigIntT = big.Int
